@@ -19,6 +19,7 @@ import json
 import random
 import re
 import sys
+import zlib
 from pathlib import Path
 from typing import Any, Dict, List, Optional, Tuple
 
@@ -564,6 +565,129 @@ def _mach_job(arg):
     return len(recs), int(verdict[2]), bad
 
 
+# ------------------------------------------------------------------------------------------------ machine level: a used machine
+def _reuse_job(arg):
+    """A snapshot is loaded into a FRESH machine and into a machine that has already run another program (and written IMR, ISR,
+    timers, keys ... along the way); both then run the same continuation.  What the used machine did before is not part of the
+    architectural state the snapshot restores, so the two must stay identical (registers, memories, display, timers, interrupt
+    state, counters) - the whole-machine reading of 'regardless of what executed before'."""
+    shard_id, seeds = arg
+    sys.path.insert(0, str(vlib.VERIF / "harness" / "py"))
+    vlib.setup_repo_imports()
+    from checks import c16, c12
+    mh = c16._imports()
+    vh = Vh()
+    tmp = vlib.scratch("C07") / f"reuse-{shard_id}"
+    tmp.mkdir(parents=True, exist_ok=True)
+    recs = []
+
+    def run(m, script):
+        for a in script:
+            if a["ev"] == "Step":
+                m.step(a["ins"])
+            elif a["ev"] == "Key" and m.impl == "py":
+                m.m.event(a)              # (the harness machine resolves the matrix code to a key name)
+            else:
+                m.event(a)
+
+    def flat(p):
+        cells = [[0x300000 + i, int(v)] for i, v in enumerate([p["imem"], p["ram"], p["lcd"]])]
+        for gi, g in enumerate(("kbd", "timers", "irq", "cnt")):
+            for ki, (k, v) in enumerate(sorted(p[g].items())):
+                if k == "depth":
+                    continue          # call-depth metric: bookkeeping that the property itself lists as hidden state
+                cells.append([0x310000 + gi * 256 + ki, v if isinstance(v, int) else zlib.crc32(str(v).encode()) & 0x7FFFFFFF])
+        return {"regs": {k: int(p["regs"][k]) for k in ARCH}, "len": 0, "err": int(p["err"]), "pw": "run" if p["pw"] == "run" else "low", "fin": cells, "nsteps": 0}
+
+    try:
+        for gseed in seeds:
+            rnd = random.Random(gseed)
+            a_script = c12.random_script(rnd, 14)
+            b_script = [{"ev": "Step", "ins": {"k": "SETIMR", "v": rnd.choice([0x55, 0x83, 0x0F])}}] + c12.random_script(rnd, 10)
+            # physical inputs are the environment's, not the machine's history: the used machine's keys are let go before the load
+            held = {a["code"] for a in b_script if a["ev"] == "Key"}
+            b_script += [{"ev": "Key", "code": c, "press": False} for c in sorted(held)] + [{"ev": "OnKeyUp"}]
+            cut = rnd.randrange(2, max(3, len(a_script) - 3))
+            for cls in ("py", "rs"):
+                def mk():
+                    return c16.PyM(mh) if cls == "py" else c16.RsM(mh, vh)
+                donor = mk()
+                run(donor, a_script[:cut])
+                path = str(tmp / f"s-{cls}-{gseed}.pce500snap")
+                if donor.save(path):
+                    donor.close()
+                    continue
+                fresh = mk()
+                e1 = fresh.load(path)
+                used = mk()
+                run(used, b_script)
+                e2 = used.load(path)
+                if e1 or e2:
+                    for m in (donor, fresh, used):
+                        m.close()
+                    continue
+                def latch(m):
+                    if cls == "py":
+                        return bool(getattr(m.m.emu, "_key_irq_latched", False))
+                    return bool(vh.call("rt.dump", name=m.name, ranges=[])["timer"]["key_irq_latched"])
+                # structural tag: the key-interrupt latch is not part of the bundle (recorded finding) - did it survive the load?
+                tag = "+keylatch" if latch(used) != latch(fresh) else ""
+                for m in (fresh, used):
+                    run(m, a_script[cut:])
+                ref = None
+                for variant, m in (("fresh", fresh), ("loaded-into-used-machine" + tag, used)):
+                    r = flat(m.proj())
+                    r.update({"id": shard_id * 10_000_000 + len(recs) + 1, "group": f"{cls}-reuse{gseed}", "kind": "hist", "impl": cls, "variant": variant, "ref": 0,
+                              "replay": {"kind": "reuse", "impl": cls, "seed": gseed}})
+                    recs.append(r)
+                    if variant == "fresh":
+                        ref = len(recs)
+                    r["ref"] = ref
+                for m in (donor, fresh, used):
+                    m.close()
+                try:
+                    Path(path).unlink()
+                except OSError:
+                    pass
+    finally:
+        vh.close()
+    if not recs:
+        return 0, 0, []
+    d = vlib.scratch("C07")
+    tf = d / f"reuse-{shard_id}.ndjson"
+    vlib.write_ndjson(tf, [{k: v for k, v in r.items() if k != "replay"} for r in recs])
+    res = run_tlc(SD, "JudgeHistory", "JudgeHistory.cfg", workers=1, env={"TRACE_FILE": str(tf)}, tag=f"C07-reuse-{shard_id}", jvm=["-Xss128m"], heap="2g", timeout=3000)
+    verdict = None
+    for v in res.printed():
+        if isinstance(v, tuple) and v and v[0] == "JUDGE":
+            verdict = v
+    if verdict is None:
+        raise MachineryError(f"JudgeHistory did not complete (reuse shard {shard_id}):\n{res.out[-2000:]}")
+    tf.unlink()
+    byid = {r["id"]: r for r in recs}
+    bad = []
+    for x in verdict[3]:
+        r = byid[int(x[0])]
+        ref = recs[r["ref"] - 1]
+        bad.append((str(x[1]), r["impl"], r["variant"], r["replay"], {k: r[k] for k in ("regs", "pw", "fin")}, {k: ref[k] for k in ("regs", "pw", "fin")}))
+    return len(recs), int(verdict[2]), bad
+
+
+def machine_reuse(cr: CheckRun) -> None:
+    n = 64 if cr.tier == "quick" else 1200
+    rnd = random.Random(cr.seed + 23)
+    seeds = [rnd.getrandbits(30) for _ in range(n)]
+    nsh = min(vlib.NCPU, 16)
+    results = vlib.pmap(_reuse_job, [(150 + i, seeds[i::nsh]) for i in range(nsh)])
+    for nrec, ngr, bad in results:
+        cr.cov["programs"] = cr.cov.get("programs", 0) + nrec
+        cr.cov["machine_reuse_groups"] = cr.cov.get("machine_reuse_groups", 0) + ngr
+        for clause, impl, variant, rep, got, ref in bad:
+            cr.violation(f"{clause}:{impl}:machine-{variant}", f"{impl} machine, scripts seed {rep['seed']}: after loading the same snapshot and running the same continuation, the "
+                         f"machine that had run another program before ends in {got}, the fresh one in {ref}", rep)
+    cr.mark("machine-reuse")
+
+
 def machine_split(cr: CheckRun) -> None:
     """'Running a program for N+M steps is indistinguishable from running it N steps and then M steps' on the whole machines:
     CoreRuntime::step(k) / PCE500Emulator.run(k) batches against single steps and two-batch splits, with interrupts and timers live."""
@@ -587,6 +711,7 @@ def run(cr: CheckRun) -> None:
     temp_def_use(cr, en)
     cr.mark("defuse")
     machine_split(cr)
+    machine_reuse(cr)
     mach_programs = cr.cov.get("programs", 0)
     groups, hist_encs, straight = make_groups(en, cr.tier, cr.seed)
     nsh = vlib.NCPU * 2
@@ -629,6 +754,11 @@ def replay(path: str) -> int:
         print(json.dumps(g))
         print("DefBeforeUse violated" if res.invariant_violated else "DefBeforeUse holds")
         return 1 if res.invariant_violated else 0
+    if rec.get("kind") == "reuse":
+        r = _reuse_job((0, [rec["seed"]]))
+        for b in r[2]:
+            print(b[0], b[1], b[2], b[4], b[5])
+        return 1 if r[2] else 0
     if rec.get("kind") == "mach":
         r = _mach_job((0, [rec["seed"]]))
         for b in r[2]:
